@@ -964,6 +964,14 @@ static void check_iter_text(Run &r, TJob &J, const std::string &str, const Vec &
 		} else first = -9999;
 	});
 	if (sig) { report(r, sigbase + "perform-" + signame(sig), vec, desc() + fmt(": faults at element %d", (int) elem)); free(s); return; }
+	// companion of the element-end test in the string iterator: its element converter asks without destination
+	// first, so a conversion WITH destination to the text format type must not fault either (guard, 'i' job only)
+	if (J.fn == F_ITERSTR && J.dst == 'i') {
+		int sigv;
+		GUARD(sigv, { TextIter ti_; if (ti_.open(J.fn, s, len)) { const mpt::value *ev = ti_.it->value(); mpt::value_format vf; if (ev) mpt::mpt_value_convert(ev, mpt::TypeValFmt, &vf); ++r.transitions; ti_.done(); } });
+		if (sigv) { report(r, J.name + "|valfmt|with-destination|perform-" + signame(sigv), vec, fmt("mpt_iterator_string(%s): converting the element to a value format WITH destination faults", quote(str).c_str())); free(s); return; }
+		asan_error();
+	}
 	if (asan_error()) { report(r, sigbase + "asan", vec, desc() + ": memory access outside the text / destination (AddressSanitizer)"); free(s); return; }
 	if (!failsig.empty()) { report(r, sigbase + failsig, vec, desc() + fail); free(s); return; }
 	if (first == -9999) { ++J.c.cls["iterator-not-created"]; free(s); return; }
